@@ -13,13 +13,13 @@ RULE = (
     "structural validation failures, warnings-as-errors, reset_headers, collect projections, CsvPaths jobs on files whose header cells "
     "contain quotes, delimiters, spaces, embedded newlines, an empty header row; the same path bound to two files); the reference "
     "record of each job = the job run FIRST in its own fresh interpreter; then every ordered pair of jobs (thorough: every triple over "
-    "a subset) is run in a long-lived process without resetting cache/ or the process, and every job's record must equal its fresh "
+    "a subset) is run in a long-lived process without resetting cache/ or the process (once with a new CsvPaths per job, once - for the CsvPaths jobs - on one shared CsvPaths instance whose in-memory header cache is warm), and every job's record must equal its fresh "
     "twin; for CsvPaths jobs a second fresh process reusing the first one's sandbox (cache populated by an earlier process) must "
     "agree too; two jobs exist both as a directly created CsvPath and as a CsvPaths-managed run and must give the same lines, variables, verdict and counters; non-trivial = the history contains two different jobs; state = (job, position in history)"
 )
 BOUNDS = {
-    "quick": "22 jobs: 22 fresh-process references + 9 warm-cache fresh processes; all 484 ordered pairs + 1,000 triples over a 10-job subset",
-    "thorough": "all 484 pairs, all 10,648 triples, sequences of 4 over a 6-job subset",
+    "quick": "26 jobs: 26 fresh-process references + 12 warm-cache fresh processes; all 676 ordered pairs (fresh CsvPaths per job) + 144 ordered pairs of CsvPaths jobs on ONE shared instance + 1,000 triples over a 10-job subset",
+    "thorough": "all pairs, all 17,576 triples, shared-instance triples, sequences of 4 over a 6-job subset",
 }
 CHUNK = 20
 BUDGET = {"quick": 600, "thorough": 3400}
@@ -61,6 +61,10 @@ JOBS = [
     {"kind": "paths", "match": '[push("h", header_name(1)) @n = count_headers()]', "rows": HQ2},
     {"kind": "paths", "match": '[#0 == "k"]', "rows": B},
     {"kind": "paths", "match": "[nofunc(#0)]", "rows": A},
+    {"kind": "paths", "match": '[append("extra", "x") yes()]', "rows": A},
+    {"kind": "paths", "match": "[@n = count_headers()]", "rows": A},
+    {"kind": "paths", "match": '[#0 == "n" -> reset_headers() @n = count_headers()]', "rows": A},
+    {"kind": "path", "match": '[append("extra", "x") @n = count_headers()]', "rows": A},
 ]
 PATHS_JOBS = [i for i, j in enumerate(JOBS) if j["kind"] == "paths"]
 SUB10 = [0, 1, 2, 3, 4, 5, 12, 14, 17, 19]
@@ -115,6 +119,12 @@ def cases(tier, seed):
         yield {"hist": [i], "warmcheck": True}
     for a, b in itertools.product(range(n), repeat=2):
         yield {"hist": [a, b]}
+    pj = [i for i, j in enumerate(JOBS) if j["kind"] == "paths"]
+    for a, b in itertools.product(pj, repeat=2):
+        yield {"hist": [a, b], "share": True}
+    if tier == "thorough":
+        for t in itertools.product(pj, repeat=3):
+            yield {"hist": list(t), "share": True}
     sub = SUB10 if tier == "quick" else list(range(n))
     for t in itertools.product(sub, repeat=3):
         yield {"hist": list(t)}
@@ -127,8 +137,9 @@ def sample(case):
     return {"history": [JOBS[i]["match"] + " on " + json.dumps(JOBS[i]["rows"][0]) for i in case["hist"]]}
 
 
-def run_job(job, fresh=False):
-    """-> JSON-able record. Never resets the process; the caller decides about directories."""
+def run_job(job, fresh=False, shared=None):
+    """-> JSON-able record. Never resets the process; the caller decides about directories. shared: a dict holding one CsvPaths
+    instance reused by all CsvPaths jobs of a history (in-memory header/line cache warm)."""
     from mcx import run, sandbox
 
     rows = job["rows"]
@@ -145,7 +156,12 @@ def run_job(job, fresh=False):
         from csvpath import CsvPaths
         from mcx import groups
 
-        cp = CsvPaths(print_default=False)
+        if shared is not None:
+            if "cp" not in shared:
+                shared["cp"] = CsvPaths(print_default=False)
+            cp = shared["cp"]
+        else:
+            cp = CsvPaths(print_default=False)
         src = os.path.join(sandbox.root(), "data", "c19src.csv")
         sandbox.write_csv(rows, path=src)
         name = "d" + run.h64(rows)
@@ -189,12 +205,15 @@ def run_case(case):
     def bad(what, got, want, i):
         viol.append({"case": cstr + f" :: J{i} = {JOBS[i]['kind']} {JOBS[i]['match']} on {json.dumps(JOBS[i]['rows'])[:60]}", "diverge": f"{what}: got {got} expected {want}", "sig": f"J{i} {what.split(':')[0]}"})
 
+    shared = {} if case.get("share") else None
+    if shared is not None:
+        cstr += " (one CsvPaths instance)"
     for pos, i in enumerate(hist):
         ref = REFS.get(i)
         if ref is None or "spawn_failed" in ref:
             bad("HARNESS-ERROR no fresh-process reference", ref, "a record", i)
             continue
-        rec = run_job(JOBS[i])
+        rec = run_job(JOBS[i], shared=shared)
         if rec != ref:
             keys = sorted(k for k in set(rec) | set(ref) if rec.get(k) != ref.get(k))
             bad(f"record differs from the same job run first in a fresh process: {keys}", {k: rec.get(k) for k in keys}, {k: ref.get(k) for k in keys}, i)
